@@ -86,6 +86,18 @@ func (r *Run) verifyHelpers(ld *Loaded, filter func(c *Contract) bool) {
 		if c.Special() {
 			continue
 		}
+		if filter == nil && c.Layer != "H" && !ownsProp(c, r.Prop) {
+			// a Layer-P contract of another property: only worth discharging here if it
+			// is a cheap helper in disguise (Register.U16 …); Run, the memio loops etc.
+			// are that other property's business
+			n := 0
+			for _, b := range c.Fn.Blocks {
+				n += len(b.Instrs)
+			}
+			if len(c.Loops) > 0 || n > 40 || c.Fn.Pkg.Pkg.Path() != modPath {
+				continue
+			}
+		}
 		if filter == nil || filter(c) {
 			cs = append(cs, c)
 		}
